@@ -51,6 +51,11 @@ fn rate_dur(r: i64) -> Duration {
 }
 
 fn text(c: &Value, fmt: usize) -> Option<String> {
+    text_rate(c, fmt, false)
+}
+
+/// `live`: the rate is r milliseconds (the real reloader thread sleeps it); otherwise 30 r seconds
+pub fn text_rate(c: &Value, fmt: usize, live: bool) -> Option<String> {
     match c["k"].as_str().unwrap() {
         "absent" => None,
         "broken" => Some(match (c["v"].as_i64().unwrap(), fmt) {
@@ -64,7 +69,7 @@ fn text(c: &Value, fmt: usize) -> Option<String> {
         _ => {
             let v = c["v"].as_i64().unwrap();
             let r = c["r"].as_i64().unwrap();
-            let rate = format!("{} seconds", 30 * r);
+            let rate = if live { format!("{}ms", r) } else { format!("{} seconds", 30 * r) };
             Some(match fmt {
                 0 => format!(
                     "{}appenders:\n  cap:\n    kind: capture\n    tag: v{}\nroot:\n  level: info\n  appenders:\n    - cap\n",
